@@ -20,11 +20,16 @@
   then stay without tasks and DEPLOY runs into deploy_timeout: finding deploy_noncritical_blocks). After the last failed
   attempt the critical undeployable roles are marked UNDEPLOYABLE, which makes DEPLOY give up at once.
 
-  The verdict of a round reaches acquireTasks through an unbuffered channel on which resourceOffers sends WITHOUT
-  blocking (`select { case outcomeCh <- …: default: }`): if the round is over before acquireTasks has got from "offers
-  revived" to its receive, the verdict is dropped and acquireTasks waits for ever, holding the deployment mutex
-  (finding deploy_verdict_lost; seen on the real core under load, mostly on rounds that are abandoned at once). This is
-  an environment choice of the scenarios: `OWorkflow.verdictLost = some k` — the verdict of attempt k is dropped.
+  The verdict of a round reaches acquireTasks through a channel that acquireTasks makes afresh for every attempt and on
+  which resourceOffers sends exactly once, WITHOUT blocking (`select { case outcomeCh <- …: default: }`). Whether
+  acquireTasks has got from "offers revived" to its receive when that send is tried is up to the scheduler of the Go
+  runtime: an environment choice of the scenarios, `OWorkflow.notListening = some k` — the round of attempt k is over
+  first (seen on the real core under load, mostly on rounds that are abandoned at once). What follows from it depends on
+  the channel (`trySend`): it has room for the one verdict it ever carries (`AcqCfg.outcomeCap = 1`, the code as it is
+  since `fix: acquireTasks cannot miss the verdict of its offers round`), so the send succeeds either way and the choice
+  makes no difference (`C02_verdict_always_heard`, `C02_listening_irrelevant_code`). With the unbuffered channel of the
+  code as it was (`AcqCfg.legacy`, capacity 0) the verdict was dropped and acquireTasks waited for ever, holding the
+  deployment mutex (the former finding deploy_verdict_lost: `acquireLost`, `C02_finding_deploy_verdict_lost`).
 
   `AcqCfg.resetPerAttempt` is the statement `deploymentSuccess = true` at the head of the loop body: with it (the code)
   the verdict on an attempt depends on that attempt alone; without it the flag is sticky and a failed first attempt
@@ -85,12 +90,25 @@ def attemptVerdict (ds : List Desc) (o : RoundOutcome) : Bool :=
 structure AcqCfg where
   maxAttempts : Nat
   resetPerAttempt : Bool     -- `deploymentSuccess = true` in the "reset all variable before try" block
+  outcomeCap : Nat           -- capacity of the channel made per attempt for the round's verdict (`make(chan ResourceOffersOutcome, 1)`)
   deriving DecidableEq, Repr
 
-/-- The code as it is. -/
-def AcqCfg.code : AcqCfg := ⟨attemptLimit, true⟩
+/-- The code as it is (the three components are tied to the source by `C02_attempt_loop_is_code` and
+    `C02_verdict_channel_is_code`). -/
+def AcqCfg.code : AcqCfg := ⟨attemptLimit, true, 1⟩
+/-- The code as it was before `fix: acquireTasks cannot miss the verdict of its offers round`: the channel was unbuffered. -/
+def AcqCfg.legacy : AcqCfg := ⟨attemptLimit, true, 0⟩
 /-- NOT the code: the verdict flag is never reset, one failed attempt condemns all later ones. -/
-def AcqCfg.sticky : AcqCfg := ⟨attemptLimit, false⟩
+def AcqCfg.sticky : AcqCfg := ⟨attemptLimit, false, 1⟩
+
+/-- A non-blocking send (`select { case ch <- v: default: }`) on a channel of capacity `cap` that holds `buffered` values:
+    it goes through iff a receiver is waiting or the buffer has room; otherwise the value is dropped. -/
+def trySend (cap buffered : Nat) (listening : Bool) : Bool := listening || decide (buffered < cap)
+
+/-- The verdict of a round reaches acquireTasks. The channel is made afresh for every attempt and resourceOffers sends on
+    it once (go/ast: `C02_verdict_channel_is_code`), so it is empty when the send is tried; `listening`: acquireTasks is
+    at its receive by then. -/
+def AcqCfg.heard (cfg : AcqCfg) (listening : Bool) : Bool := trySend cfg.outcomeCap 0 listening
 
 /-- What acquireTasks leaves behind. -/
 structure Acquired where
@@ -137,7 +155,8 @@ structure OWorkflow where
   tasks : List OTask
   rounds : List Round          -- the offers rounds after REVIVE, in order; rounds beyond the list are complete
   notifyLost : Bool := false
-  verdictLost : Option Nat := none   -- the verdict of this attempt (0 = the first) never reaches acquireTasks
+  notListening : Option Nat := none  -- the round of this attempt (0 = the first) is over before acquireTasks is at its
+                                     -- receive: the hand-over of its verdict finds no receiver
   deriving Repr
 
 def OTask.desc (t : OTask) : Desc := { critical := t.critical, host := if t.launch = .nohost then none else some t.host }
@@ -162,15 +181,21 @@ def acquireLost (acfg : AcqCfg) (ds : List Desc) (rs : List Round) (k : Nat) : A
   let a := acquire acfg ds rs
   if k < a.attempts.length then { attempts := a.attempts.take (k + 1), ok := false, kept := [], marked := [] } else a
 
+/-- The attempt whose verdict is dropped, if any: the one that finds no receiver, when the channel has no room either. -/
+def OWorkflow.dropped (w : OWorkflow) (acfg : AcqCfg) : Option Nat :=
+  match w.notListening with
+  | none => none
+  | some k => if acfg.heard false then none else some k
+
 /-- acquireTasks in the environment of the workflow. -/
 def OWorkflow.acquired (w : OWorkflow) (acfg : AcqCfg) : Acquired :=
-  match w.verdictLost with
+  match w.dropped acfg with
   | none => acquire acfg w.descs w.rounds
   | some k => acquireLost acfg w.descs w.rounds k
 
 /-- acquireTasks is still waiting for a verdict. -/
 def OWorkflow.hung (w : OWorkflow) (acfg : AcqCfg) : Bool :=
-  match w.verdictLost with
+  match w.dropped acfg with
   | none => false
   | some k => decide (k < (acquire acfg w.descs w.rounds).attempts.length)
 
